@@ -108,6 +108,13 @@ CHAINS = {
     "shuffle_ew": lambda x: x.shuffle("k")[["k", "w"]] + 1,
     "bcast_join": lambda x: x.merge(_small(x), on="k", how="inner", broadcast=True),
     "bcast_join_left": lambda x: x.merge(_small(x), on="k", how="left", broadcast=True),
+    "bcast_join2": lambda x: x.merge(_small2(x), on="k", how="inner", broadcast=True, shuffle_method="tasks"),
+    "bcast_join2_left": lambda x: x.merge(_small2(x), on="k", how="left", broadcast=True, shuffle_method="tasks"),
+    "sample": lambda x: x.sample(frac=0.5, random_state=7),
+    "partition_info": lambda x: x.map_partitions(_mp_info, meta=x._meta.assign(pn=0)),
+    "set_index_keep": lambda x: x.set_index("w", drop=False),
+    "sorted_ignore_index": lambda x: x.sort_values("w", ignore_index=True),
+    "sorted_nafirst": lambda x: x.sort_values(["v", "w"], na_position="first"),
     "hash_join": lambda x: x.merge(_small(x).repartition(npartitions=1), on="k", how="inner", broadcast=False, npartitions=3),
     "cumsum": lambda x: x[["k", "w"]].cumsum(),
     "shift": lambda x: x[["k", "w"]].shift(1),
@@ -120,6 +127,16 @@ CHAINS = {
     "series_ew": lambda x: (x["w"] + 1).rename("ww"),
     "concat": lambda x: _dxconcat([x[["k"]], x[["k"]] + 5]),
 }
+
+
+def _small2(x):
+    import dask_expr as dx
+
+    return dx.from_pandas(pd.DataFrame({"k": [1, 2, 3, 9, 4, 5], "z": [10, 20, 30, 90, 40, 50]}), npartitions=2)
+
+
+def _mp_info(df, partition_info=None):
+    return df.assign(pn=partition_info["number"] if partition_info else -1)
 
 
 def _dxconcat(objs):
@@ -167,9 +184,9 @@ LABELLED = {"v": True}
 
 def _evaluate(case):
     viols, info = [], {}
-    ordered = case["chain"] not in ("shuffle", "shuffle_np2", "shuffle_ew", "bcast_join", "bcast_join_left", "hash_join")
-    labelled = case["chain"] not in ("reset_index", "bcast_join", "bcast_join_left", "hash_join")
-    with dask.config.set({"dataframe.shuffle.method": "tasks"}):
+    ordered = case["chain"] not in ("shuffle", "shuffle_np2", "shuffle_ew", "bcast_join", "bcast_join_left", "bcast_join2", "bcast_join2_left", "hash_join")
+    labelled = case["chain"] not in ("reset_index", "bcast_join", "bcast_join_left", "bcast_join2", "bcast_join2_left", "hash_join", "sorted_ignore_index")
+    with dask.config.set({"dataframe.shuffle.method": case.get("method", "tasks")}):
         try:
             src = make_source(case["source"])
             x = CHAINS[case["chain"]](src)
@@ -297,7 +314,7 @@ def _evaluate(case):
 
 
 def key(case):
-    return f"{case['mode']}|{case['source']}|{case['chain']}" + ("|nofuse" if case.get("fuse") is False else "")
+    return f"{case['mode']}|{case['source']}|{case['chain']}" + ("|nofuse" if case.get("fuse") is False else "") + ("|disk" if case.get("method") == "disk" else "")
 
 
 def shrink(case):
@@ -327,6 +344,8 @@ def run(ctx):
             for c in CHAINS:
                 for mode in ("partitions", "head"):
                     cases.append({"mode": mode, "source": s, "chain": c})
+                    if mode == "partitions" and c in ("shuffle", "shuffle_np2", "shuffle_ew", "hash_join", "sorted", "set_index") and s in ("from_pandas", "from_map", "read_csv"):
+                        cases.append({"mode": mode, "source": s, "chain": c, "method": "disk"})
                     if not quick:
                         cases.append({"mode": mode, "source": s, "chain": c, "fuse": False})
         ctx.rule = (f"{len(SOURCES)} source kinds x {len(CHAINS)} chains of partition-wise / broadcast / shuffle / join / sort operations x EVERY index set "
